@@ -342,3 +342,48 @@ Proof.
   cbn [obind]. f_equal. f_equal.
   clear WI. induction ins as [|i ins IH]; [reflexivity|]. inversion FI; inversion NA; subst. cbn [map]. rewrite txin_roundtrip, IH by assumption. reflexivity.
 Qed.
+
+(* ================================================================ the output commitments are part of the id pre-image (used by C14) *)
+Lemma conf_pair_comm e c e' c' : conf_pair e c = conf_pair e' c' -> c = c'.
+Proof. destruct e, c, e', c'; cbn; congruence. Qed.
+Lemma txout_of_comms x ox : txout_of x = Val ox ->
+  to_value ox = conf_pair (unk x F_amount) (unk x F_amount_comm) /\ to_asset ox = conf_pair (unk x F_asset) (unk x F_asset_comm).
+Proof.
+  unfold txout_of. destruct (unk x F_asset_comm), (unk x F_asset), (unk x F_amount_comm), (unk x F_amount); intros H; try discriminate;
+  injection H as <-; split; reflexivity.
+Qed.
+Lemma outs_comms_equal : forall l l' so,
+  omap (map strip_out_witness) (outs_of l) = Val so -> omap (map strip_out_witness) (outs_of l') = Val so ->
+  forall i x y, nth_error l i = Some x -> nth_error l' i = Some y ->
+    unk x F_amount_comm = unk y F_amount_comm /\ unk x F_asset_comm = unk y F_asset_comm.
+Proof.
+  unfold omap. induction l as [|a l IH]; intros l' so H H' i x y X Y; [destruct i; discriminate|].
+  destruct l' as [|b l']; [destruct i; discriminate|].
+  cbn [outs_of] in H, H'.
+  destruct (txout_of a) as [oa| |] eqn:A; cbn [obind] in H; try discriminate.
+  destruct (outs_of l) as [ol| |] eqn:L; cbn [obind] in H; try discriminate.
+  destruct (txout_of b) as [ob| |] eqn:B; cbn [obind] in H'; try discriminate.
+  destruct (outs_of l') as [ol'| |] eqn:L'; cbn [obind] in H'; try discriminate.
+  cbn [map] in H, H'. destruct so as [|s so]; [discriminate|].
+  assert (strip_out_witness oa = s /\ map strip_out_witness ol = so) as [S1 S2] by (split; congruence).
+  assert (strip_out_witness ob = s /\ map strip_out_witness ol' = so) as [T1 T2] by (split; congruence).
+  destruct i as [|i]; cbn [nth_error] in X, Y.
+  - injection X as <-. injection Y as <-.
+    destruct (txout_of_comms _ _ A) as [VA AA]. destruct (txout_of_comms _ _ B) as [VB AB].
+    assert (to_value oa = to_value ob /\ to_asset oa = to_asset ob) as [EV EA].
+    { rewrite <- T1 in S1. unfold strip_out_witness in S1. split; congruence. }
+    rewrite VA, VB in EV. rewrite AA, AB in EA. split; eapply conf_pair_comm; eauto.
+  - apply (IH l' so) with (i := i); try assumption; [try rewrite L; cbn [obind]; now rewrite S2|try rewrite L'; cbn [obind]; now rewrite T2].
+Qed.
+Theorem commitments_fixed_by_uid arms exempt cl p q t :
+  uid_preimage_with arms exempt cl p = Val t -> uid_preimage_with arms exempt cl q = Val t ->
+  forall i x y, nth_error (poutputs p) i = Some x -> nth_error (poutputs q) i = Some y ->
+    unk x F_amount_comm = unk y F_amount_comm /\ unk x F_asset_comm = unk y F_asset_comm.
+Proof.
+  rewrite !uid_preimage_unfold. intros HP HQ.
+  destruct (sanity_check p); cbn [obind] in HP; try discriminate. destruct (locktime_with arms p); cbn [obind] in HP; try discriminate.
+  destruct (omap (map strip_out_witness) (outs_of (poutputs p))) as [so| |] eqn:OP; cbn [obind] in HP; try discriminate.
+  destruct (sanity_check q); cbn [obind] in HQ; try discriminate. destruct (locktime_with arms q); cbn [obind] in HQ; try discriminate.
+  destruct (omap (map strip_out_witness) (outs_of (poutputs q))) as [so'| |] eqn:OQ; cbn [obind] in HQ; try discriminate.
+  assert (so = so') as <- by congruence. eapply outs_comms_equal; eauto.
+Qed.
